@@ -85,3 +85,12 @@ Proof.
     + apply tag_eqb_eq; reflexivity.
     + apply IH; reflexivity.
 Qed.
+
+(* The steps of the rollback closures (`rollback_indexes`) of add_impl / update_impl / remove_impl, one per loop:
+   RUndo*   = remove what THIS operation inserted (for (k, v) in *_inserted { k.remove(..) })
+   RRestore* = re-insert what THIS operation removed (for (k, v) in *_removed { k.insert(..) })
+   RRevBtree = the reverse B-tree update (new -> old), one step. *)
+Inductive rstep : Type :=
+  | RUndoBtree | RUndoBm25 | RUndoHnsw
+  | RRevBtree
+  | RRestoreBtree | RRestoreBm25 | RRestoreHnsw.
